@@ -32,7 +32,7 @@ def keyfn(e, clause):
 def wide_ops(ctx: Ctx, table: list) -> list[dict]:
     rng = random.Random(ctx.seed + 5)
     alpha = gen.alphabet("thorough")            # totality: always the wide alphabet
-    nonascii = [a for a in alpha if a > 127 or a < 32]
+    nonascii = [a for a in alpha if not (48 <= a <= 57 or 65 <= a <= 90 or 97 <= a <= 122)]   # everything illegal
     ops = []
 
     def iban(t, vb=False, entries=("iban.new", "iban.validate", "iban.is_valid")):
@@ -56,7 +56,7 @@ def wide_ops(ctx: Ctx, table: list) -> list[dict]:
             spots = [0, 1, 2, 3] + sorted({4 + i for i in range(len(cls)) if i == 0 or cls[i] != cls[i - 1]}
                                            | {4 + len(cls) - 1})
             for p in spots:
-                for a in (nonascii if not ctx.quick else rng.sample(nonascii, 14)):
+                for a in (nonascii if not ctx.quick else rng.sample(nonascii, 20)):
                     t = base[:p] + [a] + base[p + 1:]
                     iban(t, vb=rng.random() < 0.3, entries=(rng.choice(("iban.new", "iban.validate", "iban.is_valid")),))
             # multi-defect inputs: wrong country / wrong length / illegal character combined
